@@ -2,7 +2,8 @@
 
 Case text (one line, see harness/h_dtd.c):
   dtd <ndata> <threads> <sched> <window> <threshold> <spin> <flags> | <task> ; <task> ; ...
-  task = blank separated accesses "<datum><r|w|x>", "." = no data, leading ">" = nested.
+  task = blank separated accesses "<datum><r|w|x>", "." = no data, leading ">" = nested;
+  a field "!" is a wait point (parsec_taskpool_wait, then insertion goes on), not a task.
 Observation (both sides):
   in: <t>=<v>,<v> ... | data: v ... | runs: c ... | conflicts=<n> null=<k>
 """
@@ -36,6 +37,8 @@ def parse_case(case):
         if fields and fields[-1] == "":
             fields = fields[:-1]          # a trailing ';' does not start a task
         for t in fields:
+            if t == "!":                  # wait point of the inserting thread, not a task
+                continue
             nested = t.startswith(">")
             if nested:
                 t = t[1:]
